@@ -649,6 +649,9 @@ class Interp:
                 return self.eval_const_fn(cv)
             if t == 'log::STATIC_MAX_LEVEL':
                 return EnumV('LevelFilter', 'Off', 0, ())
+            # a constant item of another crate (SCREAMING_CASE) described by a model: its value
+            if re.match(r'^[A-Z][A-Z0-9_]*$', key) and key in self.m.models:
+                return self.m.models[key](self, [], t)
             # unit struct or fn item
             if re.match(r'^[A-Z]\w*$', t):
                 return StructV(t, ())
